@@ -639,7 +639,7 @@ def _multisets(symbols, n, start=0):
 
 
 def _entity_job(job):
-    (ekind, cap, symbols, nmax, first, horizon) = job
+    (ekind, cap, symbols, nmax, first, horizon, dyadic) = job
     st = {"exec": 0, "trans": 0, "nontriv": 0, "ties": 0, "outcomes": set(), "viol": {}, "samples": [],
           "dist_over": 0}
     for n in range(1, nmax + 1):
@@ -662,10 +662,11 @@ def _entity_job(job):
                     per[t // w] = per.get(t // w, 0) + 1
                 if any(c > ekind[1] for c in per.values()):
                     st["dist_over"] += 1
-            for fp, desc in entity_oracle(ekind, cap, arrivals, obs):
+            for fp, desc in entity_oracle(ekind, cap, arrivals, obs, dyadic):
                 if fp not in st["viol"] or len(arrivals) < len(st["viol"][fp][1]["arrivals"]):
                     st["viol"][fp] = (desc, {"driver": "entity", "ekind": ekind, "cap": cap,
-                                             "arrivals": list(arrivals), "horizon_ns": horizon})
+                                             "arrivals": list(arrivals), "horizon_ns": horizon,
+                                             "dyadic": dyadic})
             if not st["samples"] and tie and limited and n == nmax:
                 st["samples"].append({"ekind": ekind, "cap": cap, "arrivals": list(arrivals),
                                       "arrived": obs["arrived"], "forwarded": obs["sink"],
@@ -696,7 +697,7 @@ ENTITY_KINDS_NONDYADIC = [
 ENTITY_TIMES_ND = [0, S // 10, 3 * S // 10, 3 * S // 10 + 1, S // 3, 6 * S // 10]
 
 
-def run_entity_driver(run, name, kinds, times, hops, caps, nmax, seed, horizon):
+def run_entity_driver(run, name, kinds, times, hops, caps, nmax, seed, horizon, dyadic=True):
     t0 = time.time()
     symbols = [(t, h) for t in times for h in hops]
     d = run.driver(name, {"limiters": kinds, "arrival_times_ns": times, "hop_counts": list(hops),
@@ -707,7 +708,7 @@ def run_entity_driver(run, name, kinds, times, hops, caps, nmax, seed, horizon):
     for ek in kinds:
         for cap in (caps if ek[0] in ("rle", "inductor") else (0,)):
             for first in range(len(symbols)):
-                jobs.append((ek, cap, symbols, nmax, first, horizon))
+                jobs.append((ek, cap, symbols, nmax, first, horizon, dyadic))
     outcomes = set()
     found = {}
     ties = 0
@@ -726,7 +727,7 @@ def run_entity_driver(run, name, kinds, times, hops, caps, nmax, seed, horizon):
             d.samples.extend(st["samples"])
     for fp, (desc, rep) in sorted(found.items()):
         obs = run_entity(rep["ekind"], rep["cap"], rep["arrivals"], rep["horizon_ns"])
-        v = entity_oracle(rep["ekind"], rep["cap"], rep["arrivals"], obs)
+        v = entity_oracle(rep["ekind"], rep["cap"], rep["arrivals"], obs, rep["dyadic"])
         if fp not in [x[0] for x in v]:
             raise RuntimeError(f"violation {fp} did not reproduce from its replay data: {rep}")
         run.violation(fp, desc, rep)
@@ -769,7 +770,8 @@ def main(tier, seed, only=None):
                                              (0, 1, 2), 4 if tier == "quick" else 5, seed, 64 * S)),
         ("entity-nondyadic", lambda: run_entity_driver(run, "entity-nondyadic", ENTITY_KINDS_NONDYADIC,
                                                        ENTITY_TIMES_ND, (0, 1), (1, 2),
-                                                       3 if tier == "quick" else 4, seed, 16 * S)),
+                                                       3 if tier == "quick" else 4, seed, 16 * S,
+                                                       dyadic=False)),
     ]
     for name, fn in plan:
         if only and name not in only:
@@ -806,7 +808,7 @@ def replay(data):
     for (t, ty, tag) in obs["sink"]:
         print(f"  forwarded t={t:>12}ns  request #{tag} ({ty})")
     print(f"  dropped={obs['dropped']} still queued={obs['queue_depth']} run outcome={obs['outcome']}")
-    v = entity_oracle(ekind, rep["cap"], arrivals, obs)
+    v = entity_oracle(ekind, rep["cap"], arrivals, obs, rep.get("dyadic", True))
     for fp, desc in v:
         print(f"  !! {fp}: {desc}")
     hit = [x for x in v if x[0] == data.get("fingerprint")] if data.get("fingerprint") else v
